@@ -45,7 +45,11 @@ RULE_ADDED = (
               ' (dangling when there is no PIN yet). '
               ' '
               'Round 10: PIN file paths spelled with ./, // and <symlinked directory>/..; scrat'
-              'ch files on another file system than the temp directory in half the shards. ')
+              'ch files on another file system than the temp directory in half the shards. '
+              ' '
+              'Round 11: fault-free histories (first change, forced changes, restarts) in a chi'
+              'ld process that has given up root (uid 65534), when the check itself runs as roo'
+              't. ')
 RULE = RULE + " " + RULE_ADDED.strip()
 ASSUMPTIONS = [
     "simulated device keeps its PIN in a state file written before it acknowledges (its NVM)",
@@ -809,13 +813,77 @@ def run_shard(spec, acc):
     try:
         for case in gen_histories(spec, tmpdir):
             run_history(acc, case, tmpdir)
+        if spec["shard"] % 4 == 1:
+            unprivileged_histories(acc, spec)
         pin_draws(acc, 5000 if spec["tier"] == "quick" else 70000)
     finally:
         shutil.rmtree(tmpdir, ignore_errors=True)
 
 
+def unprivileged_histories(acc, spec):
+    """the manager does not run as root in production (its containers and services run it
+    as an ordinary user, for whom permission bits count).  Fault-free histories - first
+    change, forced change, restarts - in a child process that has given up root, on files
+    of its own: what one run leaves behind, the next must be able to work with."""
+    if os.getuid() != 0:
+        acc.count("unprivileged_histories_skipped_not_root")
+        return
+    cases = []
+    for platform in ("ledger", "sgx"):
+        for start in ("absent", "forced"):
+            cases.append({"platform": platform, "start": start, "steps": [
+                {"platform": platform, "force": start == "forced"}, {"platform": platform},
+                {"platform": platform, "force": True}, {"platform": platform},
+                {"platform": platform, "force": True}, {"platform": platform}]})
+    envv = dict(os.environ, PYTHONHASHSEED="0", PYTHONDONTWRITEBYTECODE="1")
+    r = subprocess.run([sys.executable, "-m", "pv.props.c10", "--unprivileged",
+                        json.dumps(cases)], cwd=env.VERIF, env=envv, capture_output=True,
+                       timeout=600)
+    try:
+        res = json.loads(r.stdout.decode().strip().splitlines()[-1])
+    except Exception:
+        acc.notes.append("unprivileged child gave no result: rc=%s %s" % (
+            r.returncode, r.stderr.decode(errors="replace")[-300:]))
+        return
+    acc.count("histories_run_without_root", res["histories"])
+    acc.evaluations += res["evaluations"]
+    for v in res["violations"]:
+        acc.violation(v["mech"] + ":as-an-ordinary-user", v["detail"],
+                      dict(v["case"] or {}, unprivileged=True))
+
+
+def unprivileged_main(argv):
+    """child: drop root, then run the histories on a directory of our own"""
+    from ..run import Acc
+    cases = json.loads(argv[0])
+    env.setup()
+    # (the interpreter lives under root's home in this sandbox: everything is imported by a
+    # throw-away run before root is given up)
+    warm = tempfile.mkdtemp(prefix="pv-c10-warm-")
+    try:
+        run_history(Acc(), cases[0], warm)
+    finally:
+        shutil.rmtree(warm, ignore_errors=True)
+    os.setgroups([])
+    os.setgid(65534)
+    os.setuid(65534)
+    acc = Acc()
+    tmpdir = tempfile.mkdtemp(prefix="pv-c10-user-")
+    try:
+        for case in cases:
+            run_history(acc, case, tmpdir)
+    finally:
+        shutil.rmtree(tmpdir, ignore_errors=True)
+    print(json.dumps({"histories": len(cases), "evaluations": acc.evaluations,
+                      "violations": acc.to_json()["violations"]}))
+    return 0
+
+
 def replay(case, acc):
     env.setup()
+    if case.get("unprivileged"):
+        case = {k: v for k, v in case.items() if k != "unprivileged"}
+        return unprivileged_histories_replay(acc, case)
     if case.get("kind") == "draw":
         return pin_draws(acc, 200000)
     if case.get("kind") == "entropy":
@@ -825,6 +893,16 @@ def replay(case, acc):
         run_history(acc, case, tmpdir)
     finally:
         shutil.rmtree(tmpdir, ignore_errors=True)
+
+
+def unprivileged_histories_replay(acc, case):
+    envv = dict(os.environ, PYTHONHASHSEED="0", PYTHONDONTWRITEBYTECODE="1")
+    r = subprocess.run([sys.executable, "-m", "pv.props.c10", "--unprivileged",
+                        json.dumps([case])], cwd=env.VERIF, env=envv, capture_output=True,
+                       timeout=600)
+    res = json.loads(r.stdout.decode().strip().splitlines()[-1])
+    for v in res["violations"]:
+        acc.violation(v["mech"] + ":as-an-ordinary-user", v["detail"], v["case"])
 
 
 def child_main(argv):
@@ -837,3 +915,5 @@ def child_main(argv):
 if __name__ == "__main__":
     if len(sys.argv) > 2 and sys.argv[1] == "--child":
         sys.exit(child_main(sys.argv[2:]))
+    if len(sys.argv) > 2 and sys.argv[1] == "--unprivileged":
+        sys.exit(unprivileged_main(sys.argv[2:]))
